@@ -261,6 +261,12 @@ RESERVED_WORDS = frozenset(
         "for",
         "empty",
         "blank",
+        # Arguments of the `for` and `tablerow` tags.
+        "limit",
+        "offset",
+        "reversed",
+        "cols",
+        "continue",
     ]
 )
 
@@ -285,21 +291,27 @@ class PathToken(TokenT):
     source: str = field(repr=False)
 
     def __str__(self) -> str:
+        return self._str(nested=False)
+
+    def _str(self, *, nested: bool) -> str:
         it = iter(self.path)
         root = next(it)
         if isinstance(root, str) and (
             not RE_PROPERTY.fullmatch(root)
-            or (len(self.path) == 1 and root in RESERVED_WORDS)
+            # Inside brackets a lone word is always read as a variable.
+            or (not nested and len(self.path) == 1 and root in RESERVED_WORDS)
         ):
             buf = [f"[{_quote(root)}]"]
         elif isinstance(root, str):
             buf = [root]
+        elif isinstance(root, PathToken):
+            buf = [f"[{root._str(nested=True)}]"]
         else:
-            # A nested path or an integer index.
+            # An integer index.
             buf = [f"[{root}]"]
         for segment in it:
             if isinstance(segment, PathToken):
-                buf.append(f"[{segment}]")
+                buf.append(f"[{segment._str(nested=True)}]")
             elif isinstance(segment, str):
                 if RE_PROPERTY.fullmatch(segment):
                     buf.append(f".{segment}")
